@@ -43,7 +43,7 @@ ASSUMPTIONS = [
     "part J: annet.deploy.get_deployer() is a harness driver that delegates apply_deploy_rulebook to the real "
     "annet.deploy.apply_deploy_rulebook and has an empty exit command list; DeployOptions carries a ready Query",
 ]
-BUDGET = {"quick": 150, "thorough": 900}
+BUDGET = {"quick": 150, "thorough": 1500}
 
 BLOCK_VENDORS = ["huawei", "h3c", "optixtrans", "cisco", "nexus", "iosxr", "arista", "aruba", "b4com", "pc"]
 FLAT_VENDORS = ["juniper", "ribbon", "nokia"]
